@@ -6,10 +6,10 @@ import TracklibVerif.Gen.SpatialIndex
 `TV.Grid.cartesienne / evalLine / isSegmentIntersects` on all arguments. Bare operation classes only.
 
 Also tied: `SpatialIndex.__getCell` and `SpatialIndex.groundDistanceToUnits` of the CURRENT
-`tracklib/core/spatial_index.py`. The model divides with the plain `/` (no `ZeroDivisionError` branch): the equalities
-are stated for cell sizes `dX`, `dY` that are not `== 0`, and `tie_getCell_ok` says without that hypothesis that
-whenever the code returns, it returns the model's value. `groundDistanceToUnits` adds the Python literal `1`
-(`(1 : α)`), the model the converted integer `((1 : Int) : α)`: `h1` says they are the same number. -/
+`tracklib/core/spatial_index.py`. `tie_getCellR` / `tie_groundDistanceToUnits` are about the model's executed forms (`ZeroDivisionError` on a zero
+cell side included); `tie_getCell` / `tie_getCell_ok` about the value function `getCell` the theorems use.
+`groundDistanceToUnits` adds the Python literal `1` (`(1 : α)`), the model the converted integer
+`((1 : Int) : α)`: `h1` says they are the same number. -/
 namespace TV.Tie.C08
 open TV TV.Py
 set_option linter.unusedSectionVars false
@@ -61,13 +61,48 @@ theorem tie_getCell (ix : Grid.Index α) (p : α × α) (hx : ¬ Py.feq ix.dX 0 
         · simp [h1, h2, h4]
         · simp [h1, h2, h3, h4]
 
-/-- `groundDistanceToUnits(distance)` -/
+/-- the model's exceptions as Python exceptions -/
+def liftErr : Grid.Err → Py.Err
+  | .zerodiv => .zerodiv
+  | .index => .index
+  | .type => .type
+  | .exit => .exit
+
+/-- a model result as a result of the translated code -/
+def lift {β : Type} : Grid.Res β → Py.M β
+  | .ok v => .ok v
+  | .error e => .error (liftErr e)
+
+/-- `__getCell(coord)` as executed, `ZeroDivisionError` included, is the model's `getCellR`. `hz`: the model's
+`x == 0` (`¬ x < 0 ∧ ¬ 0 < x`) is Python's (`x ≤ 0 ∧ 0 ≤ x`) — true in every linear order and of every double
+that is not NaN. -/
+theorem tie_getCellR (hz : ∀ x : α, Grid.isZero x = Py.feq x 0) (ix : Grid.Index α) (p : α × α) :
+    Gen.SpatialIndex.SpatialIndex_getCell ix.xmin ix.xmax ix.ymin ix.ymax ix.dX ix.dY p.1 p.2 = lift (Grid.getCellR ix p) := by
+  simp only [Gen.SpatialIndex.SpatialIndex_getCell, Grid.getCellR, Py.fdiv, hz]
+  by_cases h1 : p.1 < ix.xmin
+  · simp [h1, lift]
+  · by_cases h2 : ix.xmax < p.1
+    · simp [h2, lift]
+    · by_cases h3 : p.2 < ix.ymin
+      · simp [h1, h2, h3, lift]
+      · by_cases h4 : ix.ymax < p.2
+        · simp [h1, h2, h4, lift]
+        · by_cases hx : Py.feq ix.dX 0 = true
+          · simp [h1, h2, h3, h4, hx, lift, liftErr]
+          · by_cases hy : Py.feq ix.dY 0 = true
+            · simp [h1, h2, h3, h4, hx, hy, lift, liftErr]
+            · simp [h1, h2, h3, h4, hx, hy, lift]
+
+/-- `groundDistanceToUnits(distance)`, `ZeroDivisionError` included. `h1`: the Python literal `1` is the converted
+integer `1`; `hz` as in `tie_getCellR`. -/
 theorem tie_groundDistanceToUnits (fl : α → Int) (ix : Grid.Index α) (distance : α)
-    (h1 : ((1 : Int) : α) = (1 : α)) (hz : ¬ Py.feq (Grid.pyMin ix.dX ix.dY) 0 = true) :
-    Gen.SpatialIndex.SpatialIndex_groundDistanceToUnits fl ix.dX ix.dY distance = .ok (Grid.groundDistanceToUnits fl ix distance) := by
-  have hz' : ¬ Py.feq (Py.fmin ix.dX ix.dY) 0 = true := hz
-  simp only [Gen.SpatialIndex.SpatialIndex_groundDistanceToUnits, Grid.groundDistanceToUnits, Py.fdiv, ite_neg' hz', bind_ok, h1]
-  rfl
+    (h1 : ((1 : Int) : α) = (1 : α)) (hz : ∀ x : α, Grid.isZero x = Py.feq x 0) :
+    Gen.SpatialIndex.SpatialIndex_groundDistanceToUnits fl ix.dX ix.dY distance = lift (Grid.groundDistanceToUnits fl ix distance) := by
+  have hm : Py.fmin ix.dX ix.dY = Grid.pyMin ix.dX ix.dY := rfl
+  simp only [Gen.SpatialIndex.SpatialIndex_groundDistanceToUnits, Grid.groundDistanceToUnits, Py.fdiv, hz, h1, hm]
+  by_cases h : Py.feq (Grid.pyMin ix.dX ix.dY) 0 = true
+  · simp [h, lift, liftErr]
+  · simp [h, lift]
 end
 section
 variable {α : Type} [Add α] [Sub α] [Mul α] [Div α] [Neg α] [LT α] [LE α]
